@@ -512,11 +512,20 @@ def _continuous_state_case(nq, k):
     if k % 4 == 3:
         # the same preparation inside a circuit that carries a herald of its own, declared directly, in front of or behind the qubit modes
         outer = lw.Circuit(2 * nq + 1)
-        front = (k // 4) % 2 == 0
-        outer.herald((k // 8) % 2, 0 if front else 2 * nq)
-        outer.add(base, 1 if front else 0)
+        form = (k // 4) % 3
+        hn = (k // 12) % 2
+        if form == 2:
+            # the herald enters BEHIND the qubits and leaves IN FRONT of them: every qubit mode moves up by one on the way
+            outer.add(base, 0)
+            outer.mode_swaps({**{i: i + 1 for i in range(2 * nq)}, 2 * nq: 0})
+            outer.herald(hn, 2 * nq, 0)
+            steps.append("own %d-photon herald entering behind and leaving in front of the qubits" % hn)
+        else:
+            front = form == 0
+            outer.herald(hn, 0 if front else 2 * nq)
+            outer.add(base, 1 if front else 0)
+            steps.append("own %d-photon herald %s the qubits" % (hn, "in front of" if front else "behind"))
         base = outer
-        steps.append("own %d-photon herald %s the qubits" % ((k // 8) % 2, "in front of" if front else "behind"))
     desc = "%d qubits, Haar-random local unitaries around %s, #%d" % (nq, steps or "nothing", k)
     psi = V[:, 0]
     rx = np.outer(psi, psi.conj())
@@ -537,7 +546,9 @@ def _continuous_state_case(nq, k):
         ex = Experiment(k, "permanent" if src == "raw" else src, raw=(src == "raw"))
         t = tm.StateTomography(nq, base, ex.state)
         rho = t.process()
-        if src == "permanent":
+        if src == "permanent" and not any("entering behind" in s_ for s_ in steps if isinstance(s_, str)):
+            # (with a herald that leaves on another mode than it entered, the requested circuits have another mode layout than the base
+            # circuit - the library wraps it - so the matrix comparison of check_requested does not apply; the reconstruction below does)
             msg = check_requested(base, ex.calls[0][1], nq)
             if msg:
                 f.append(("protocol", msg + " (%s)" % desc))
